@@ -2465,6 +2465,21 @@ fn main() {
         reg.add(five("five_level::NoLockingPool[tiny]", FiveKind::NoLocking, five_tiny, &f8, 5, 7));
         reg.add(five("five_level::NoLockingPool[tiny,align16]", FiveKind::NoLocking, five_tiny16, &[1, 16, 17, 80], 4, 5));
         reg.add(five("five_level::NoLockingPool[memory_optimized,128B]", FiveKind::NoLocking, five_memopt, &[8, 24, 32, 129], 4, 5));
+        // start state "four blocks carved from the end, all live": a hole below the bump pointer (free an early block) followed by
+        // the free of a middle block is reachable at depth 2, the allocation that would overlap at depth 3 (seed C07f needed
+        // seven operations from the empty pool, beyond the quick depth)
+        for (nm, kind) in [
+            ("NoLockingPool", FiveKind::NoLocking),
+            ("MutexBasedPool", FiveKind::Mutex),
+            ("LockFreePool", FiveKind::LockFree),
+            ("FixedCapacityPool", FiveKind::Fixed),
+            ("AdaptiveFiveLevelPool[SingleThread]", FiveKind::Adaptive(Some(ConcurrencyLevel::SingleThread))),
+        ] {
+            let mut sp = five(&format!("five_level::{nm}[tiny]/start: 4 live blocks"), kind, five_tiny, &[16, 24, 40], 4, 5);
+            sp.0.prefill = vec![Op::Alloc(Req { size: 16, align: 0 }), Op::Alloc(Req { size: 24, align: 0 }), Op::Alloc(Req { size: 16, align: 0 }), Op::Alloc(Req { size: 24, align: 0 })];
+            sp.0.max_live = 6;
+            reg.add(sp);
+        }
         reg.add(five("five_level::MutexBasedPool[tiny]", FiveKind::Mutex, five_tiny, &f8, 5, 7));
         reg.add(five("five_level::LockFreePool[tiny]", FiveKind::LockFree, five_tiny, &f8, 5, 7));
         reg.add(five("five_level::ThreadLocalPool[tiny]", FiveKind::ThreadLocal, five_tiny, &[8, 16, 65], 5, 6));
